@@ -136,10 +136,10 @@ class SpecMixin:
             return self.sp_getattr(o.val, attr, se)      # specs are total: value under None is arbitrary
         if isinstance(o, VObj):
             res = None
-            for c in o.classes:
-                dc, ty = field_decl(c, attr)
-                if ty is None:
-                    raise Unsupported("spec: attribute %s.%s is not a declared field" % (c, attr))
+            having = [c for c in o.classes if field_decl(c, attr)[1] is not None]
+            if not having:
+                raise Unsupported("spec: attribute %s.%s is not a declared field" % ("|".join(o.classes), attr))
+            for c in having:     # specs are total: for a class without the field the value is that of another class
                 v = self.sp_load(se, o.t, c, attr)
                 res = v if res is None else ite_val(cls_of(o.t) == class_tag(c), v, res)
             return res
@@ -269,7 +269,7 @@ class SpecMixin:
                 for kv in ks:
                     rng.append(z3.And(lo <= kv, kv < hi))
             body = self.sp_truth(self.sp(lam.body, s2), se.st)
-            facts = z3.And(s2.facts) if s2.facts else None
+            facts = None     # heap-typing facts about bound-variable loads are not used inside quantifiers
             if f == "forall":
                 inner = body if facts is None else z3.Implies(facts, body)
                 return VBool(z3.ForAll(ks, z3.Implies(z3.And(rng), inner) if rng else inner))
@@ -280,10 +280,22 @@ class SpecMixin:
                 if kw.arg == "witness":
                     ws = kw.value.elts if isinstance(kw.value, (ast.List, ast.Tuple)) else [kw.value]
                     for w in ws:
-                        wv = ops.to_int(self.sp(w, se))
+                        try:
+                            wv = ops.to_int(self.sp(w, se))
+                        except KeyError:
+                            continue     # witness names a local of the callee: only a hint, unavailable at call sites
+                        if wv is None:
+                            continue
                         inst = z3.substitute(z3.And(rng + [body]), (ks[0], wv))
                         wit.append(inst)
             return VBool(z3.Or([ex] + wit) if wit else ex)
+        if f == "final":
+            # value of a local at the point where the clause is evaluated (bypasses the entry-value environment)
+            n = e.args[0].id
+            if n not in se.st.store:
+                raise KeyError(n)
+            v = se.st.store[n]
+            return v.val if isinstance(v, VOpt) else v
         if f == "implies":
             a = self.sp_truth(self.sp(e.args[0], se), se.st)
             b = self.sp_truth(self.sp(e.args[1], se), se.st)
